@@ -54,6 +54,9 @@ export const PROBES = [
 // that told the two behaviours apart; `expect` is TypeScript's verdict, "diagnostic" a refusal.
 const fn0 = () => 1;
 export const TEXT_PROBES = [
+  // indexed access into an open tuple: the position right after the prefix is the first rest position (seeded C07-i)
+  { id: "open-tuple-indexed-at-the-first-rest-position", text: "type T = [string, ...number[]];\ntype X = { one: T[1]; both: T[0 | 1]; zero: T[0]; two: T[2] };", cases: [[{ one: 1, both: 2, zero: "s", two: 3 }, "Y"], [{ one: 1, both: "s", zero: "s", two: 3 }, "Y"], [{ one: "s", both: 2, zero: "s", two: 3 }, "N"], [{ one: 1, both: true, zero: "s", two: 3 }, "N"], [{ one: 1, both: 2, zero: 1, two: 3 }, "N"]] },
+  { id: "open-tuple-with-two-prefix-items-indexed", text: "type T = [string, boolean, ...number[]];\ntype X = { two: T[2]; onetwo: T[1 | 2]; three: T[3] };", cases: [[{ two: 1, onetwo: true, three: 3 }, "Y"], [{ two: 1, onetwo: 5, three: 3 }, "Y"], [{ two: true, onetwo: 5, three: 3 }, "N"], [{ two: 1, onetwo: "s", three: 3 }, "N"]] },
   { id: "enum-member-initialised-with-an-earlier-member", text: 'enum E { A = "a", B = A, C = B, D = E.A, N = 1, M = N }\ntype X = { b: E.B; c: E.C; d: E.D; m: E.M };', cases: [[{ b: "a", c: "a", d: "a", m: 1 }, "Y"], [{ b: "b", c: "a", d: "a", m: 1 }, "N"], [{ b: "a", c: "a", d: "a", m: 2 }, "N"]] },
   { id: "typeof-const-primitive-is-its-literal", text: 'const x = "pre";\nconst n = 5;\ntype X = { a: typeof x; n: typeof n };', cases: [[{ a: "pre", n: 5 }, "Y"], [{ a: "other", n: 5 }, "N"], [{ a: "pre", n: 6 }, "N"]] },
   { id: "typeof-spread-later-wins", text: 'const defaults = { mode: "light", size: 1 } as const;\nconst overrides = { mode: "dark" } as const;\nconst cfg = { ...defaults, ...overrides } as const;\ntype X = typeof cfg;', cases: [[{ mode: "dark", size: 1 }, "Y"], [{ mode: "light", size: 1 }, "N"], [{ mode: "dark" }, "N"]] },
